@@ -13,7 +13,8 @@ SIZES_RANDOM = [1, 2, 3, 4, 5, 6, 8, 16, 17, 32, 64, 100, 255, 256, 257, 1024, 4
 OPC = {"Len": 0, "IsEmpty": 1, "Readable": 2, "Mem": 3, "Clear": 4, "Shift": 5, "ReadByte": 6, "TryReadByte": 7,
        "ReadBytes": 8, "TryReadBytes": 9, "ReadAll": 10, "ReadCopy": 11, "TryReadExact": 12, "IoRead": 13,
        "WriteBytes": 14, "WriteStr": 15, "IoWrite": 16, "IoFlush": 17, "WritableWrote": 18, "CopyOnce": 19,
-       "Deframe": 20, "TryParse": 21, "Copy": 22, "EscapeAscii": 23, "Debug": 24, "Wrote": 25}
+       "Deframe": 20, "TryParse": 21, "Copy": 22, "EscapeAscii": 23, "Debug": 24, "Wrote": 25,
+       "PollRead": 30, "PollWrite": 31, "PollFlush": 32, "PollShutdown": 33}
 READS = {"ReadByte", "TryReadByte", "ReadBytes", "TryReadBytes", "ReadAll", "ReadCopy", "TryReadExact", "IoRead",
          "Deframe", "TryParse"}
 WRITES = {"WriteBytes", "WriteStr", "IoWrite", "WritableWrote", "CopyOnce", "Wrote"}
@@ -44,13 +45,17 @@ def enc_op(op):
         return [c, len(op[1])] + list(op[1]) + [op[2]]
     if n == "CopyOnce":   # (tag, a, b, data)
         return [c, op[1], op[2], op[3], len(op[4])] + list(op[4])
+    if n == "PollRead":   # (pre bytes, cap, uninit)
+        return [c, len(op[1])] + list(op[1]) + [op[2], op[3]]
+    if n == "PollWrite":
+        return [c, len(op[1])] + list(op[1])
     if n == "TryParse":   # (steps, some)
         return [c, 1 if op[2] else 0, len(op[1])] + enc_steps(op[1])
     return [c]
 
 
-def mk_case(size, ctor, mem, ops, src):
-    ints = [2, size, ctor] + (list(mem) if ctor in (1, 2) else [])
+def mk_case(size, ctor, mem, ops, src, fam=2):
+    ints = [fam, size, ctor] + (list(mem) if ctor in (1, 2) else [])
     for op in ops:
         ints += enc_op(op)
     return Case(ints, {"size": size, "ctor": ctor, "mem": list(mem) if ctor in (1, 2) else [], "ops": [list(map(_j, op)) for op in ops], "src": src})
@@ -409,6 +414,8 @@ class ApiProp(Prop):
     # (mem(), len(), writable().len() determine mem, read_index, write_index) before every op, so a defect in
     # one function shows at the steps that exercise it and nowhere else ----
     relevant_ops = None          # None = every op; else a set of op names whose steps are compared
+    fam_code = 2
+    step_code = 8
 
     def step_view(self, op, rec, before):
         """what is compared for one step (overridden per property)"""
@@ -434,11 +441,11 @@ class ApiProp(Prop):
                         wi = size - prev.wlen
                         ri = wi - prev.len
                         if 0 <= ri <= wi <= size:
-                            lines.append(" ".join(map(str, [8, size, ri, wi] + list(prev.mem) + enc_op(op))))
+                            lines.append(" ".join(map(str, [self.step_code, size, ri, wi] + list(prev.mem) + enc_op(op))))
                             index.append((ci, k, op, r, prev))
                 prev = r
         # constructors: run the model on the case prefix without ops
-        ctor_lines = [" ".join(map(str, [2, c.meta["size"], c.meta["ctor"]] + (c.meta["mem"] if c.meta["ctor"] in (1, 2) else []))) for c in cases]
+        ctor_lines = [" ".join(map(str, [self.fam_code, c.meta["size"], c.meta["ctor"]] + (c.meta["mem"] if c.meta["ctor"] in (1, 2) else []))) for c in cases]
         uniq = sorted(set(ctor_lines))
         cm = dict(zip(uniq, model_fn(uniq)))
         for ci, c in enumerate(cases):
